@@ -203,6 +203,10 @@ func GenBatchManyFields(t *rapid.T, sc *Scenario) Batch {
 				f.Store, f.Value = true, fmt.Sprintf("v-%s-%d", names[fi], d)
 			}
 			doc.Fields = append(doc.Fields, f)
+			if rapid.IntRange(0, 2).Draw(t, "dupField") == 0 {
+				// the same field again in this document (multi-valued field with a high field id)
+				doc.Fields = append(doc.Fields, Field{Name: f.Name, DV: f.DV, Len: 1, Terms: []Term{{T: "dup", Freq: 1}}})
+			}
 		}
 		b = append(b, doc)
 	}
@@ -308,9 +312,10 @@ type WideParams struct {
 	NoFieldPer int // docs with i%NoFieldPer==1 have no field "a" at all (0: never)
 	SecondDV   bool
 	FreqMod    int
-	RepeatA    int // >0: docs with i%RepeatA==0 carry a second instance of field "a" listing the dense term again
-	GapField   int // >0: doc-value field "b" occurs only in document 3 and in documents >= GapField: whole 1024-document doc-value chunks without any value
-	DenseExact int // >0: the dense term occurs in exactly the first DenseExact documents that have field "a" (an exact multiple of 1024: the boundary of the adaptive chunk-count formula)
+	RepeatA    int    // >0: docs with i%RepeatA==0 carry a second instance of field "a" listing the dense term again
+	DenseName  string // name of the dense term ("dense" or "dense2": merge inputs whose dense terms differ)
+	GapField   int    // >0: doc-value field "b" occurs only in document 3 and in documents >= GapField: whole 1024-document doc-value chunks without any value
+	DenseExact int    // >0: the dense term occurs in exactly the first DenseExact documents that have field "a" (an exact multiple of 1024: the boundary of the adaptive chunk-count formula)
 }
 
 func GenWide(t *rapid.T) WideParams {
@@ -325,6 +330,7 @@ func GenWide(t *rapid.T) WideParams {
 	p.SecondDV = rapid.Bool().Draw(t, "secondDV")
 	p.FreqMod = rapid.IntRange(1, 4).Draw(t, "freqMod")
 	p.RepeatA = rapid.SampledFrom([]int{0, 0, 1, 2, 3}).Draw(t, "repeatA")
+	p.DenseName = rapid.SampledFrom([]string{"dense", "dense", "dense2"}).Draw(t, "denseName")
 	if p.N > 1030 && rapid.Bool().Draw(t, "gapField") {
 		p.GapField = rapid.SampledFrom([]int{1024, 1030, 2048, 2050, p.N - 2}).Draw(t, "gapStart")
 		if p.GapField >= p.N {
@@ -363,7 +369,11 @@ func (p WideParams) Batch(sc *Scenario) Batch {
 		}
 		if hasDense {
 			denseSoFar++
-			tm := Term{T: "dense", Freq: 1 + i%p.FreqMod}
+			dn := p.DenseName
+			if dn == "" {
+				dn = "dense"
+			}
+			tm := Term{T: dn, Freq: 1 + i%p.FreqMod}
 			if p.DenseLocs > 0 && i%p.DenseLocs == 0 {
 				tm.Locs = []Loc{{Field: "", Pos: i, Start: i * 3, End: i*3 + 5}}
 			}
@@ -376,9 +386,9 @@ func (p WideParams) Batch(sc *Scenario) Batch {
 			fa.Len += 2
 		}
 		b[i].Fields = append(b[i].Fields, fa)
-		if p.RepeatA > 0 && i%p.RepeatA == 0 && len(fa.Terms) > 0 && fa.Terms[0].T == "dense" {
+		if p.RepeatA > 0 && i%p.RepeatA == 0 && len(fa.Terms) > 0 && strings.HasPrefix(fa.Terms[0].T, "dense") {
 			// a multi-valued field: the same term again in a second instance of the field
-			b[i].Fields = append(b[i].Fields, Field{Name: "a", DV: dvA, Len: 1, Terms: []Term{{T: "dense", Freq: 1}}})
+			b[i].Fields = append(b[i].Fields, Field{Name: "a", DV: dvA, Len: 1, Terms: []Term{{T: fa.Terms[0].T, Freq: 1}}})
 		}
 		if i%500 == 7 {
 			b[i].Fields = append(b[i].Fields, Field{Name: "title", Store: true, Value: fmt.Sprintf("doc-%d", i)})
